@@ -20,7 +20,13 @@ ShapesBase == <<
   <<97, 237, 176, 128>> \o xcom, <<97, 237, 160, 128>> \o xcom, <<97, 192, 175>> \o xcom, <<97, 224, 128, 128>> \o xcom,
   <<97, 244, 144, 128, 128>> \o xcom, <<97, 240, 128, 128, 128>> \o xcom, <<97, 128>> \o xcom, <<97, 195, AT, 120, DOT, 99, 111, 109>>,
   <<97, 237, 159, 191>> \o xcom, <<97, 238, 128, 128>> \o xcom, <<97, 224, 160, 128>> \o xcom, <<97, 244, 143, 191, 191>> \o xcom,
-  <<DQ, 237, 176, 128, DQ>> \o xcom, <<97, AT, 120, DOT, 237, 176, 128>> >>
+  <<DQ, 237, 176, 128, DQ>> \o xcom, <<97, AT, 120, DOT, 237, 176, 128>>,
+  \* well-formed characters of every length class and of special standing (NBSP, soft hyphen, U+07FF/U+0800, BOM, U+FFFD,
+  \* zero-width space, U+10000, U+10FFFF, a C1 control): echoed unchanged unless they are control characters
+  <<97, 194, 160>> \o xcom, xcom \o <<194, 160>>, <<97, 194, 161>> \o xcom, <<97, 194, 173>> \o xcom, <<97, 223, 191>> \o xcom,
+  <<97, 224, 160, 128>> \o xcom, <<239, 187, 191>> \o xcom, <<97, 239, 191, 189>> \o xcom, <<97, 226, 128, 139>> \o xcom,
+  <<97, 240, 144, 128, 128>> \o xcom, <<97, 244, 143, 191, 191>> \o xcom, <<97, 194, 128>> \o xcom, <<97, 194, 159>> \o xcom,
+  <<97, 224, 184, 151, 224, 185, 132>> \o xcom, <<97, 237, 159, 191, 238, 128, 128>> \o xcom >>
 RepLong(n) == [i \in 1..(2 * n) |-> IF i % 2 = 1 THEN 195 ELSE 169] \o xcom
 ShapesLong == << Long(2047), Long(2048), Long(2049), Long(8192), Rep(1, 600) \o xcom, Rep(255, 3000), Long(2046) \o <<255>>,
                  RepLong(1500) >>
